@@ -7,15 +7,21 @@ A. Engine A: BFS over sequential operation histories per configuration (max_queu
    auto_digest_threshold, retention). Every ingested item carries a unique id and a behaviour
    tag that decides what its digester / toxic callback does when it is eventually processed
    (return with recycle material, return empty, raise) — the digester choice points are folded
-   into the operation alphabet. The instance `_lock` is replaced by `sched.CoopLock`: a self
-   re-acquire of a non-re-entrant lock raises `HangDetected` = "this call never returns".
+   into the operation alphabet. Every lock in the instance state (found by type, wherever it is kept) is
+   replaced by `sched.CoopLock`: a self re-acquire of a non-re-entrant lock raises `HangDetected` =
+   "this call never returns".
 B. Engine C: 2 threads x 1-3 operations on one lysosome under the controlled scheduler
    (every source line of lysosome.py is a scheduling point, deadlock = detected state).
 
 Observation points for conservation: the harness digesters and `on_toxic` (who was processed, with
 which result, during which public call), the captured module logger, every returned DigestResult,
-autophagy's return value, `get_statistics()` / `get_queue_status()` / `get_recycled()`, and the
-queue contents (anchor `_queue`) for the identity of what is still queued.
+autophagy's return value, `get_statistics()` / `get_queue_status()` / `get_recycled()`.
+
+The lysosome is driven and observed through its public API only. Three things the public API does not offer are
+done generically over `vars(lysosome)` (recursively: containers, private helper objects), never by attribute name:
+the IDENTITY of what is still queued (= the `Waste` objects reachable from the instance state, in container order;
+the public views only give sizes and per-type counts), cloning a state (value copy of the whole instance state,
+bound methods re-bound to the copy, locks re-created by type) and finding the locks.
 
 Dimensions besides (max_queue_size, auto_digest_threshold, retention): `silent` (console output is
 swallowed by a module-level `print`), the digester registry (`custom`: harness digesters for all four
@@ -31,10 +37,14 @@ implementation's call stack or state.
 """
 from __future__ import annotations
 
+import collections
 import datetime as _dt
+import enum
 import logging
 import re
 import sys
+import threading
+import types
 
 from mc import common, explore, sched, vclock
 
@@ -111,6 +121,228 @@ def _setup():
     lg.propagate = False
 
 
+# ---- generic view of the instance state (no attribute names) ----------------------------------------
+
+_PLAIN_LOCKS = (type(threading.Lock()), type(threading.RLock()))
+ATOM, WASTE, LOCK, METHOD, SEQ, DICT, SET, OBJ = range(1, 9)
+_KINDS = {}
+
+
+def _kind(v):
+    """How the harness treats a value found in the instance state, decided by its type."""
+    t = type(v)
+    k = _KINDS.get(t)
+    if k is None:
+        if issubclass(t, _RealWaste):
+            k = WASTE
+        elif issubclass(t, (sched.CoopLock,) + _PLAIN_LOCKS):
+            k = LOCK
+        elif issubclass(t, types.MethodType):
+            k = METHOD
+        elif issubclass(t, (list, tuple, collections.deque)):
+            k = SEQ
+        elif issubclass(t, dict):
+            k = DICT
+        elif issubclass(t, (set, frozenset)):
+            k = SET
+        elif issubclass(t, (int, float, complex, str, bytes, bytearray, type(None), enum.Enum, _dt.date, _dt.time,
+                            _dt.timedelta, _dt.tzinfo, type, types.FunctionType, types.BuiltinFunctionType,
+                            types.ModuleType, logging.Logger, type(Ellipsis), type(NotImplemented))):
+            k = ATOM
+        else:
+            k = OBJ
+        _KINDS[t] = k
+    return k
+
+
+_SLOTS = {}
+
+
+def _fields(v):
+    """Instance state of a plain object as (name, value) pairs (its __dict__ and slots)."""
+    d = getattr(v, "__dict__", None)
+    out = list(d.items()) if isinstance(d, dict) else []
+    names = _SLOTS.get(type(v))
+    if names is None:
+        names = []
+        for klass in type(v).__mro__:
+            slots = klass.__dict__.get("__slots__", ())
+            names += [n for n in ((slots,) if isinstance(slots, str) else slots) if n not in ("__dict__", "__weakref__")]
+        _SLOTS[type(v)] = names = tuple(names)
+    for name in names:
+        if hasattr(v, name):
+            out.append((name, getattr(v, name)))
+    return out
+
+
+def wastes_in(obj):
+    """Every Waste object held in the instance state of obj, in state order (attribute order, container order)."""
+    found, seen = [], set()
+    kinds = _KINDS
+
+    def walk(v, k):
+        if id(v) in seen:
+            return
+        seen.add(id(v))
+        if k == SEQ:
+            it = v
+        elif k == DICT:
+            it = v.values()
+            for x in v:  # keys are almost always atoms
+                kx = kinds.get(type(x)) or _kind(x)
+                if kx >= SEQ:
+                    walk(x, kx)
+        elif k == SET:
+            it = sorted(v, key=repr)
+        else:
+            it = [x for _n, x in _fields(v)]
+        for x in it:
+            kx = kinds.get(type(x)) or _kind(x)
+            if kx == WASTE:
+                if id(x) not in seen:
+                    seen.add(id(x))
+                    found.append(x)
+            elif kx >= SEQ:
+                walk(x, kx)
+
+    walk(obj, OBJ)
+    return found
+
+
+def install_locks_deep(obj):
+    """sched.install_locks on obj and on every private helper object / container in its state: locks are found by
+    type wherever they are kept. Returns the labels of the replaced locks."""
+    out, seen = [], set()
+    kinds = _KINDS
+
+    def coop(v, label):
+        out.append(label)
+        return sched.CoopLock(not isinstance(v, _PLAIN_LOCKS[0]), label)
+
+    def walk(v, k, label):
+        if id(v) in seen:
+            return
+        seen.add(id(v))
+        if k == OBJ:
+            if isinstance(getattr(v, "__dict__", None), dict):
+                for name in sched.install_locks(v):
+                    out.append(f"{label}.{name}")
+            items = _fields(v)
+        elif k == DICT:
+            items = list(v.items())
+        elif k == SEQ:
+            items = list(enumerate(v))
+        else:
+            items = [(None, x) for x in v]
+        for name, x in items:
+            kx = kinds.get(type(x)) or _kind(x)
+            if kx == LOCK:
+                if isinstance(x, _PLAIN_LOCKS) and k in (DICT, SEQ) and not isinstance(v, tuple):
+                    v[name] = coop(x, f"{label}[{name!r}]")
+            elif kx >= SEQ:
+                walk(x, kx, f"{label}.{name}" if k == OBJ else f"{label}[{name!r}]")
+
+    walk(obj, OBJ, type(obj).__name__)
+    return out
+
+
+def locks_in(obj):
+    """[(label, CoopLock)] in the instance state of obj."""
+    out, seen = [], set()
+
+    def walk(v, k, label):
+        if id(v) in seen:
+            return
+        seen.add(id(v))
+        if k == OBJ:
+            items = _fields(v)
+        elif k == DICT:
+            items = list(v.items())
+        else:
+            items = [(None, x) for x in v]
+        for name, x in items:
+            kx = _kind(x)
+            sub = f"{label}.{name}" if label and name is not None else (str(name) if name is not None else label)
+            if kx == LOCK:
+                if isinstance(x, sched.CoopLock):
+                    out.append((sub, x))
+            elif kx >= SEQ:
+                walk(x, kx, sub)
+
+    walk(obj, OBJ, "")
+    return out
+
+
+def copy_state(src, dst, remap):
+    """Make the instance state of dst a value copy of that of src (same class). Containers and private helper objects
+    are copied recursively, bound methods are re-bound (`remap`: id(old owner) -> new owner; src -> dst is implied),
+    locks are re-created by type (states are only cloned between calls: nothing is held), Waste items, callables and
+    other atoms are shared."""
+    memo = {id(src): dst}
+    memo.update(remap)
+    kinds = _KINDS
+
+    def dup(v, k):
+        new = memo.get(id(v))
+        if new is not None:
+            return new
+        if k == DICT:
+            if isinstance(v, collections.defaultdict):
+                new = collections.defaultdict(v.default_factory)
+            else:
+                new = type(v)() if type(v) in (dict, collections.OrderedDict) else {}
+            memo[id(v)] = new
+            for key, x in v.items():
+                kk = kinds.get(type(key)) or _kind(key)
+                kx = kinds.get(type(x)) or _kind(x)
+                new[key if kk <= WASTE else dup(key, kk)] = x if kx <= WASTE else dup(x, kx)
+            return new
+        if k == SEQ:
+            if isinstance(v, list):
+                new = memo[id(v)] = []
+                for x in v:
+                    kx = kinds.get(type(x)) or _kind(x)
+                    new.append(x if kx <= WASTE else dup(x, kx))
+                return new
+            if isinstance(v, collections.deque):
+                new = memo[id(v)] = collections.deque(maxlen=v.maxlen)
+                new.extend(dup(x, _kind(x)) for x in v)
+                return new
+            items = [dup(x, _kind(x)) for x in v]
+            new = type(v)(*items) if hasattr(v, "_fields") else tuple(items)
+        elif k == METHOD:
+            owner = v.__self__
+            return types.MethodType(v.__func__, dup(owner, _kind(owner)))
+        elif k == LOCK:
+            new = sched.CoopLock(v.reentrant, v.name) if isinstance(v, sched.CoopLock) else type(v)()
+        elif k == SET:
+            new = type(v)(dup(x, _kind(x)) for x in v)
+        elif k == OBJ:
+            f = _fields(v)
+            if not f or callable(v):
+                return v  # opaque value without instance state (or a callable object): shared
+            new = memo[id(v)] = object.__new__(type(v))
+            own = getattr(v, "__dict__", None) or ()
+            for name, x in f:
+                val = dup(x, _kind(x))
+                if name in own:
+                    new.__dict__[name] = val
+                else:
+                    object.__setattr__(new, name, val)  # slot
+            return new
+        else:
+            return v
+        memo[id(v)] = new
+        return new
+
+    state = {}
+    for name, val in vars(src).items():
+        k = kinds.get(type(val)) or _kind(val)
+        state[name] = val if k <= WASTE else dup(val, k)
+    vars(dst).clear()
+    vars(dst).update(state)
+
+
 # ---- item identity -------------------------------------------------------------------------------
 
 def ident(w):
@@ -131,7 +363,7 @@ def ident(w):
 class Box:
     """One lysosome under test plus the harness-side observation logs."""
 
-    def __init__(self, cap, thr, ret_min, mode="custom", silent=True, first_id=1):
+    def __init__(self, cap, thr, ret_min, mode="custom", silent=True, first_id=1, clone_of=None):
         self.cap, self.thr, self.ret_min, self.mode, self.silent = cap, thr, ret_min, mode, silent
         self.dlog = []       # (id, path, 'ok'|'odd'|'raise'|'raise_anon', who, nested) in processing order
         self.log = []        # module-logger messages
@@ -143,13 +375,18 @@ class Box:
         self.created = {}    # id -> created_at
         self.next_id = first_id
         self.custom = CUSTOM_TYPES[mode]
+        self.daemon = None
+        if clone_of is not None:
+            # same lysosome state by value, its callbacks re-bound to this box (no constructor involved)
+            self.lys = object.__new__(type(clone_of.lys))
+            copy_state(clone_of.lys, self.lys, {id(clone_of): self})
+            return
         dig = {WasteType[t]: self._digester for t in self.custom}
         self.lys = Lysosome(max_queue_size=cap, auto_digest_threshold=thr, retention_hours=ret_min / 60.0,
                             digesters=dig or None, on_toxic=self._on_toxic if mode == "custom" else None, silent=silent)
         if mode == "partial":
             self.lys.on_toxic = self._on_toxic  # public attribute, set after construction
-        sched.install_locks(self.lys)
-        self.daemon = None
+        install_locks_deep(self.lys)
 
     def observed(self, i):
         """Does the harness see item i being processed (its type has a harness digester / toxic callback)?"""
@@ -250,8 +487,12 @@ class Box:
             return lys.clear_recycling_bin()
         raise AssertionError(op)
 
+    def queued(self):
+        """The Waste objects still held by the lysosome, oldest first (generic walk over its instance state)."""
+        return wastes_in(self.lys)
+
     def qids(self):
-        return [ident(w)[0] for w in self.lys._queue]
+        return [ident(w)[0] for w in self.queued()]
 
     def expired(self, i, now):
         return now - self.created[i] >= _dt.timedelta(minutes=self.ret_min)
@@ -467,7 +708,7 @@ def alphabet(cap, thr, level, mode):
 
 
 class State:
-    __slots__ = ("cfg", "box", "clock", "last")
+    __slots__ = ("cfg", "box", "clock", "last", "queued")  # queued: Waste list seen at the end of the last step
 
 
 class Model:
@@ -518,6 +759,7 @@ class Model:
         vclock.use(st.clock)
         st.box = Box(root[0], root[1], root[2], root[4], root[5])
         st.last = ("init",)
+        st.queued = None
         return st
 
     def clone(self, st):
@@ -525,19 +767,15 @@ class Model:
         c.cfg = st.cfg
         c.clock = vclock.VClock(start=st.clock.now())
         vclock.use(c.clock)
-        b, o = Box(st.cfg[0], st.cfg[1], st.cfg[2], st.cfg[4], st.cfg[5]), st.box
-        b.lys._queue = list(o.lys._queue)
-        b.lys._total_ingested = o.lys._total_ingested
-        b.lys._total_digested = o.lys._total_digested
-        b.lys._total_recycled = o.lys._total_recycled
-        b.lys._by_type = dict(o.lys._by_type)
-        b.lys._recycling_bin = dict(o.lys._recycling_bin)
+        o = st.box
+        b = Box(st.cfg[0], st.cfg[1], st.cfg[2], st.cfg[4], st.cfg[5], clone_of=o)  # whole instance state by value
         b.toxic_calls = dict(o.toxic_calls)
         b.types = dict(o.types)
         b.created = dict(o.created)
         b.next_id = o.next_id
         c.box = b
         c.last = st.last
+        c.queued = None
         return c
 
     def ops(self, st):
@@ -550,7 +788,7 @@ class Model:
         now = st.clock.now()
         ret = st.cfg[2]
         q = []
-        for w in st.box.lys._queue:
+        for w in st.queued if st.queued is not None else st.box.queued():
             i, beh = ident(w)
             age = int((now - w.created_at).total_seconds() // 60)
             q.append((w.waste_type.name, beh, min(age, ret)))
@@ -562,6 +800,7 @@ class Model:
     def step(self, st, op):
         _setup()
         vclock.use(st.clock)
+        st.queued = None
         kind = op[0]
         if kind == "advance":
             st.clock.advance(op[1] * 60)
@@ -609,7 +848,8 @@ class Model:
         finally:
             _Capture.sink = None
         new = list(range(nid_before, box.next_id))
-        qa = box.qids()
+        st.queued = box.queued()  # nothing touches the lysosome between here and canon()
+        qa = [ident(w)[0] for w in st.queued]
         sa = lys.get_statistics()
         # bounded queue (the largest of the three public/anchored views of the queue length is judged)
         sizes = {len(qa), sa["queue_size"], lys.get_queue_status()["size"]}
@@ -749,8 +989,11 @@ def make_factory(spec):
         box = Box(cap, thr, 60, "custom", silent)
         log = []
         now = clock.now()
-        # pre-load (sequentially, below every trigger) directly through ingest()
+        # pre-load (sequentially, below every trigger) through the public ingest(); a call that does not come back
+        # normally here is judged like one made by a thread
         pre_ids = []
+        pre_error = []
+        _Capture.sink = log
         for op, age in pre:
             created = now - _dt.timedelta(hours=2) if age == "old" else now
             tname = op[1] if op[0] == "ingest" else TOXIC
@@ -759,10 +1002,16 @@ def make_factory(spec):
             content = {"id": i, "beh": beh}
             if tname == TOXIC:
                 content["secret"] = f"SECRET{i}"
-            box.lys._queue.append(_RealWaste(WasteType[tname], content, "pre", created))
-            box.lys._total_ingested += 1
-            box.lys._by_type[WasteType[tname]] += 1
             pre_ids.append(i)
+            try:
+                box.lys.ingest(_RealWaste(WasteType[tname], content, "pre", created))
+            except sched.HangDetected as e:
+                pre_error.append(("hang:ingest:other", f"pre-loading ingest of item {i} would never return: {e}"))
+                break
+            except Exception as e:  # noqa: BLE001
+                pre_error.append((f"raises:ingest:{type(e).__name__}", f"pre-loading ingest of item {i} raised "
+                                                                      f"{type(e).__name__}: {e}"))
+                break
         # item ids are allocated up front so that they do not depend on the schedule
         plan = []
         for t in threads:
@@ -789,7 +1038,7 @@ def make_factory(spec):
                         r = ("DigestResult", r.disposed, tuple(r.errors), r.success)
                     rets[tid][k] = r
                     done[tid][k] = True
-                    n = len(box.lys._queue)
+                    n = len(box.queued())
                     if n > cap:
                         over.append((tid, k, n))
                 return True
@@ -798,9 +1047,8 @@ def make_factory(spec):
         def finish(ex):
             _Capture.sink = None
             return {"rets": rets, "done": done, "cur": cur, "over": over, "box": box, "pre": pre_ids, "plan": plan,
-                    "log": list(log), "now": now}
+                    "log": list(log), "now": now, "pre_error": pre_error}
 
-        _Capture.sink = log
         return [body(i) for i in range(len(threads))], finish
 
     return make
@@ -812,6 +1060,8 @@ def judge_factory(name, spec):
     def judge(ex, out):
         v = []
         box = out["box"]
+        if out["pre_error"]:
+            return [(k, f"{name}: {w}") for k, w in out["pre_error"]]
         if ex.deadlock:
             selfdead = [int(t) for t, (_l, held) in ex.deadlock["waiting"].items() if held == f"held by T{t}"]
             for t in selfdead:
@@ -835,8 +1085,9 @@ def judge_factory(name, spec):
         if v:
             return v
         lys = box.lys
-        if out["over"] or len(lys._queue) > cap:
-            v.append(("queue-over-capacity:schedule", f"{name}: queue length {out['over'] or len(lys._queue)} > {cap}"))
+        n_end = max(len(box.queued()), lys.get_statistics()["queue_size"], lys.get_queue_status()["size"])
+        if out["over"] or n_end > cap:
+            v.append(("queue-over-capacity:schedule", f"{name}: queue length {out['over'] or n_end} > {cap}"))
         ingested = set(out["pre"]) | {i for row in out["plan"] for i in row if i is not None}
         reports = reported_ids(out["log"])
         removed_by_autophagy = 0
@@ -1010,7 +1261,7 @@ def run(ctx):
     model = Model(ctx.tier)
     probe = Box(3, 2, 60)
     ctx.coverage["locks_replaced"] = [f"{k}:{'re-entrant' if val.reentrant else 'non-re-entrant'}"
-                                      for k, val in vars(probe.lys).items() if isinstance(val, sched.CoopLock)]
+                                      for k, val in locks_in(probe.lys)]
     if not ctx.coverage["locks_replaced"]:
         raise common.HarnessError("Lysosome has no threading.Lock/RLock attribute to replace")
     # two instances in one process must not see each other; the clone/replay self-test below presumes that much
